@@ -2,7 +2,7 @@
 option x subset of sources, wrong-typed values, and random multi-option combinations against the real `cminx.main`
 (with `cminx.document` stubbed to capture the Settings object), compared with the Lean `Config` model and with the
 statement itself (first source that sets it; documented defaults read from config_default.yaml at run time)."""
-import contextlib, dataclasses, io, itertools, logging, os, random
+import contextlib, copy, dataclasses, io, itertools, logging, os, random
 
 import yaml
 import impl
@@ -58,19 +58,32 @@ class Env:
         os.makedirs(os.path.join(self.xdg, 'cminx')); os.makedirs(self.cfgdir)
         self.userfile = os.path.join(self.xdg, 'cminx', 'config.yaml'); self.sfile = os.path.join(self.cfgdir, 's.yaml')
 
-    def run(self, user, sfile, cli_args):
-        """user/sfile: flat dicts or None (file absent).  Returns ('ok', flat settings) or ('error', type name)"""
+    INPUTS = {'alpha': {'a.cmake': 'alpha_a', 'deep/d.cmake': 'alpha_d'}, 'beta': {'b.cmake': 'beta_b'}, 'lone.cmake': 'lone', 'other.cmake': 'other'}
+
+    def make_inputs(self):
+        """real inputs below proj/srcs: two directories and two lone files"""
+        for name, body in self.INPUTS.items():
+            for rel, fn in (body.items() if isinstance(body, dict) else [('', body)]):
+                path = os.path.join(self.proj, 'srcs', name, rel).rstrip(os.sep); os.makedirs(os.path.dirname(path), exist_ok=True)
+                with open(path, 'w') as f: f.write('#[[[\n# Doc.\n#]]\nfunction(%s x)\nendfunction()\n' % fn)
+
+    def run(self, user, sfile, cli_args, inputs=None):
+        """user/sfile: flat dicts or None (file absent).  Returns ('ok', flat settings) or ('error', type name).
+        `inputs` (names below proj/srcs): several real inputs in ONE call, and document() is wrapped instead of replaced -- a copy of the
+        Settings object is taken as each call receives it, then the real document() does its work (pages go to stdout or into the
+        sandbox); self.calls = [(input, flat settings)] for every call"""
         for path, content in ((self.userfile, user), (self.sfile, sfile)):
             if content is None:
                 if os.path.exists(path): os.unlink(path)
             else:
                 with open(path, 'w') as f: f.write(yaml.safe_dump(nest(content)) if content else '{}')
-        args = (['-s', self.sfile] if sfile is not None else []) + list(cli_args) + ['some_input']
+        args = (['-s', self.sfile] if sfile is not None else []) + list(cli_args) + ([os.path.join('srcs', i) for i in inputs] if inputs else ['some_input'])
         old = {k: os.environ.get(k) for k in ('HOME', 'XDG_CONFIG_HOME', 'CMINXDIR')}
         os.environ['HOME'] = self.home; os.environ['XDG_CONFIG_HOME'] = self.xdg; os.environ.pop('CMINXDIR', None)
         cwd = os.getcwd(); captured = []
         real_document = cminx.document
-        cminx.document = lambda f, s: captured.append(s)
+        cminx.document = (lambda f, s: (captured.append(copy.deepcopy(s)), self.calls.append(f), real_document(f, s))[-1]) if inputs else (lambda f, s: captured.append(s))
+        self.calls = []
         try:
             os.chdir(self.proj)
             with contextlib.redirect_stdout(io.StringIO()), contextlib.redirect_stderr(io.StringIO()):
@@ -81,6 +94,7 @@ class Env:
                 except BaseException as e:
                     if isinstance(e, (KeyboardInterrupt, MemoryError)): raise
                     return ('error', type(e).__name__)
+            self.calls = [(f, flat(dataclasses.asdict(s))) for f, s in zip(self.calls, captured)]
             return ('ok', flat(dataclasses.asdict(captured[0])))
         finally:
             cminx.document = real_document; os.chdir(cwd)
@@ -136,11 +150,12 @@ def union_wrong_typed(user, sfile):
     return [n for n, src in (('s', sfile), ('u', user)) if src and UNION in src and not isinstance(src[UNION], list)]
 
 
-def compare(env, defaults, user, sfile, cli_args, cli_flat, out, drv, key, rel=False):
-    st, got = env.run(user, sfile, cli_args)
+def compare(env, defaults, user, sfile, cli_args, cli_flat, out, drv, key, rel=False, inputs=None):
+    st, got = env.run(user, sfile, cli_args, inputs)
     out.traces_validated += 1
     mo = drv.run([dict(op='config', sources=model_sources(defaults, user, sfile, cli_flat))])[0]
     rec = dict(suite='config', key=key, user=user, sfile=sfile, cli=cli_args)
+    if inputs: rec['inputs'] = list(inputs)
     bad = union_wrong_typed(user, sfile)
     if bad:
         # the union reads every source, so the model (`Config.resolveMain`, theorem C16_filters_any_source_rejected) and the code reject
@@ -176,6 +191,19 @@ def compare(env, defaults, user, sfile, cli_args, cli_flat, out, drv, key, rel=F
             out.violations.append(dict(rec, detail=dict(kind='value in effect is not the highest-priority one / not the documented default',
                                                         option=k, expected=v, real=rv), model_agrees=True))
             break
+    if inputs:
+        # several inputs in one call: "the value in effect" is in effect for each of them -- what document() is handed for the second and
+        # third input is the resolved configuration again, not something an earlier input left behind
+        if [f for f, _ in env.calls] != [os.path.join('srcs', i) for i in inputs]:
+            out.violations.append(dict(rec, detail=dict(kind='document() is not called once per input, in order', calls=[f for f, _ in env.calls]), model_agrees=True))
+        for pos, (f, later) in enumerate(env.calls[1:], 1):
+            for k, v in exp.items():
+                rv = later.get(k)
+                if isinstance(rv, tuple): rv = list(rv)
+                if v != rv and not (v in (None, []) and rv in (None, (), [])):
+                    out.violations.append(dict(rec, detail=dict(kind='value in effect for a later input of the same call is not the highest-priority one / not the documented default',
+                                                                input=f, position=pos, option=k, expected=v, real=rv, for_first_input=got.get(k)), model_agrees=True))
+                    return
 
 
 def real_option_table():
@@ -266,6 +294,18 @@ def config_suite(seed, tier, out, drv):
                 key = ('wrongtype-below', k, repr(bad), where, useC, useS, useU)
                 st = compare(env, defaults, user, sfile, cli[0] if useC else [], {k: cli[1]} if useC else {}, out, drv, key)
                 out.note_case(key, True); out.dist['wrong-type:' + ('rejected' if st == 'error' else 'ACCEPTED')] += 1; n += 1
+        # --- several inputs in one call, document() at work: every option set nowhere / somewhere, observed at EVERY document() call -----------
+        env.make_inputs(); gm = random.Random(f"C16/multi/{seed}")
+        orders = [['alpha', 'beta'], ['alpha', 'lone.cmake'], ['alpha', 'beta', 'lone.cmake'], ['beta', 'lone.cmake', 'alpha'], ['lone.cmake', 'alpha', 'other.cmake'],
+                  ['alpha', 'alpha'], ['lone.cmake', 'other.cmake']]
+        for k, (ty, uv, sv, cli) in OPTS.items():
+            if ty == 'bool' and uv is None: uv, sv = (not defaults[k]), defaults[k]
+            for j, (useU, useS, useC) in enumerate([(0, 0, 0), gm.choice([s3 for s3 in itertools.product([0, 1], [0, 1], [0, 1] if cli else [0]) if any(s3)])]):
+                extra = {} if k == 'input.recursive' or gm.random() < 0.5 else {'input.recursive': True}      # -r: sub-directories as well
+                inputs = orders[(n + j) % 4] if gm.random() < 0.7 else gm.choice(orders)
+                key = ('multi', k, useU, useS, useC, tuple(inputs))
+                compare(env, defaults, {k: uv} if useU else {}, dict(extra, **({k: sv} if useS else {})), cli[0] if useC else [], {k: cli[1]} if useC else {}, out, drv, key, inputs=inputs)
+                out.note_case(key, True); out.dist['inputs-per-call:%d' % len(inputs)] += 1; n += 1
         # --- random multi-option combinations ---------------------------------------------------------------------------
         for i in range(60 if tier == 'quick' else 2500):
             user, sfile, cli_args, cli_flat = {}, {}, [], {}
@@ -277,7 +317,8 @@ def config_suite(seed, tier, out, drv):
                 if cli and g.random() < 0.5: cli_args += cli[0]; cli_flat[k] = cli[1]
             if g.random() < 0.3: sfile['output.relative_to_config'] = True
             elif g.random() < 0.2: user['output.relative_to_config'] = True
-            compare(env, defaults, user or (None if g.random() < 0.3 else {}), sfile, cli_args, cli_flat, out, drv, ('rnd', seed, i))
+            inputs = gm.choice(orders) if i % 4 == 3 else None      # every fourth: several real inputs, document() at work
+            compare(env, defaults, user or (None if g.random() < 0.3 else {}), sfile, cli_args, cli_flat, out, drv, ('rnd', seed, i), inputs=inputs)
             out.note_case(('rnd', seed, i), True); n += 1
     out.suites.append(dict(name='config', runs=n))
 
@@ -291,5 +332,6 @@ def replay(v, drv):
         args = list(v.get('cli') or [])
         for k, (_, _, _, cli) in OPTS.items():
             if cli and all(a in args for a in cli[0]): cli_flat[k] = cli[1]
-        compare(env, defaults, v.get('user'), v.get('sfile'), args, cli_flat, o, drv, v.get('key'))
+        if v.get('inputs'): env.make_inputs()
+        compare(env, defaults, v.get('user'), v.get('sfile'), args, cli_flat, o, drv, v.get('key'), inputs=v.get('inputs'))
     return dict(fails=bool(o.violations), violations=[x['detail'] for x in o.violations], disagreements=[x['detail'] for x in o.disagreements])
